@@ -37,6 +37,9 @@ func hostGlobals() ugo.Map {
 		"gopanic": &ugo.Function{Name: "gopanic", Value: func(args ...ugo.Object) (ugo.Object, error) {
 			panic("host callback panic")
 		}},
+		"gopanicnil": &ugo.Function{Name: "gopanicnil", Value: func(args ...ugo.Object) (ugo.Object, error) {
+			panic(nil)
+		}},
 		"goindex": &ugo.Function{Name: "goindex", Value: func(args ...ugo.Object) (ugo.Object, error) {
 			var a []int
 			return ugo.Int(a[3]), nil
